@@ -24,6 +24,9 @@ CLAIMED = {
     "C02": ("exploration", "contracts and harnesses on the real classes decided by bounded symbolic execution (pyvc) and z3: generic poll back end under arbitrary batching, simulator back end scenario, tuner skip rule with ghost delivery log",
             "Bounded stand-in: the generic TrialBackend fetch/pause/resume logic for every split of a run's results between polls (counts symbolic, <= 3 results), the simulator back end scenario of C10 (exactly once, in order, nothing after stop/pause, everything before completion), and Tuner._update_running_trials (results after a STOP/PAUSE decision in the same batch are neither delivered nor logged). Two defects are recorded as known findings (F5, F9).",
             "Bounded sizes; interface contracts assumed for the tuner-side obligations; LocalBackend file I/O out of reach.", "5/C02"),
+    "C12": ("exploration", "contracts on the real code: unbounded VCs (pyvc/z3) for StoppingCriterion.__call__ and the simulator's criterion rewrite; Tuner.run executed symbolically against abstract collaborators with ghost protocol state for a bounded number of loop iterations; TuningStatus counters on bounded tables",
+            "StoppingCriterion.__call__ == disjunction of its thresholds and SimulatorCallback._modify_stop_criterion keeps every other field: proved for all values. Bounded stand-in for the loop: in Tuner.run (<= 4 iterations, n_workers = 1, arbitrary statuses / decisions / resumes) no trial is started or resumed once the criterion held or a worker is occupied, the run ends only on the criterion or exhaustion, exceeding max_failures raises, and every exit runs on_tuning_end -> stop_all -> mark_running_job_as_stopped; status counters equal the cardinalities on tables of <= 3 trials.",
+            "Interface contracts of contracts/iface.py assumed; callbacks / print_best_metric_found / _save_metadata assumed not to raise and to have no effect on the loop; loop iterations bounded; real-time criteria treated as abstract.", "5/C12"),
     "C04": ("proof", "contract-based deductive verification: VCs generated from the real AST (pyvc) with loop invariants and modular callee contracts, discharged by z3/cvc5; bounded-shape stand-in for the cost-aware variant and for witnesses",
             "Unbounded verification conditions (rung contents of any length, 0..3 rungs) for PromotionRungSystem (find/mark/schedule/add/report/remove) and PASHA's resource cap in on_task_schedule, from /repo's source on every run; cost-aware eligibility bounded (<=4 entries).",
             "A-REAL; SortedList contract trusted; number of rungs concrete in proof units; cost values non-negative; PASHA ranking/epsilon logic and DyHPO not covered; pyvc encoding and SMT solvers trusted.", "5/C04"),
